@@ -370,9 +370,9 @@ func propC06(r *Run) {
 					refused bool
 				}
 				var exps []exp
-				for i := 0; i < 2+r.Choose("conc-clients", 4); i++ {
+				for i, iN := 0, 2+r.Choose("conc-clients", 4); i < iN; i++ {
 					var plan []*Call
-					for k := 0; k < 1+r.Choose("conc-calls", 2); k++ {
+					for k, kN := 0, 1+r.Choose("conc-calls", 2); k < kN; k++ {
 						if r.Choose("conc-who", 2) == 0 {
 							c := &Call{Kind: []string{"list", "list-full"}[r.Choose("conc-admin-kind", 2)], Via: "api", Agent: a.idx, Session: adminTok.text}
 							plan = append(plan, c)
